@@ -246,6 +246,24 @@ pub fn run(ctx: &Ctx) -> Report {
 		r
 	});
 	total.merge(r);
+	// ---- conversions on texts holding a block-boundary or otherwise special scalar in each position
+	{
+		let mut r = Report::new();
+		let mut vs = Vec::new();
+		for t in domains::special_scalar_texts() {
+			if !fr_iri.valid(Kind::RiRef, &t) {
+				r.count("special_scalar_texts_invalid", 1);
+				continue;
+			}
+			r.states += 1;
+			r.evaluations += conv_case(&t, fr_uri.valid(Kind::Ri, &t), fr_uri.valid(Kind::RiRef, &t), syntax::split(&t).scheme.is_some(), &mut vs);
+			for v in vs.drain(..) {
+				r.violate(v);
+			}
+		}
+		total.count("special_scalar_texts", r.states);
+		total.merge(r);
+	}
 	// ---- conversions + differential on the structured domain
 	let dom: Vec<Vec<u8>> = super::c02::ref_domain(Family::Iri, &fr_iri, 1, 2, 0).into_iter().map(|(t, _)| t).collect();
 	let ops = diff_ops();
@@ -303,7 +321,8 @@ pub fn run(ctx: &Ctx) -> Report {
 		let paths: Vec<Vec<u8>> = paths.into_iter().map(domains::b).collect();
 		domains::references(
 			&[None, Some(domains::b("s")), Some(domains::b("t"))],
-			&[None, Some(domains::b("")), Some(domains::b("h")), Some(domains::b("u@h:8"))],
+			// "[::a]" / "[::A]": IP literals that differ by letter case only (unequal in both families)
+			&[None, Some(domains::b("")), Some(domains::b("h")), Some(domains::b("u@h:8")), Some(domains::b("[::a]")), Some(domains::b("[::A]"))],
 			&paths,
 			&[None, Some(domains::b("q"))],
 			&[None, Some(domains::b("f"))],
